@@ -171,14 +171,17 @@ def locality(old, new, e):
 def run(ctx):
     rng, cov = ctx.rng, ctx.coverage
     meta13, err13 = vlib.regen_extracted("C13")
+    meta06, err06 = vlib.regen_extracted("C06")     # the Rabin / fixed-size chunker models the edit-locality theorems are instantiated with
+    meta11, err11 = vlib.regen_extracted("C11")     # the parent matcher (unchanged-tree short-cut guard)
     meta, err = vlib.regen_extracted("C07")
     r = vlib.proof_stage(ctx)
-    for e in (err, err13):
+    for e in (err, err13, err06, err11):
         if e:
             r["ok"] = False; r["failures"].append("fact extraction failed: " + e)
     cov["trusted_base"] += ["props/C07/extract.py (shape of the two upload gates in file_archiver.rs / tree_archiver.rs)",
                             "props/C13/extract.py (element type of Indexer.indexed, writer queue length)"]
-    cov["source_facts"] = {"C07": meta, "C13": meta13}
+    cov["trusted_base"] += ["props/C06/extract.py (chunker constants, check_rabin_params)", "props/C11/extract.py (is_parent clauses, short-cut guard of backup_tree)"]
+    cov["source_facts"] = {"C07": meta, "C13": meta13, "C06": meta06, "C11": meta11}
     ctx.assumptions += [
         "ids are abstract: equal id = equal plaintext (SHA-256 collision-free on the values that occur); `tid` (tree serialisation + hash) is an arbitrary function of the node list, universally quantified; the driver checks on the observed ids that it IS a function of (names, metadata digest, content/subtree ids) and injective",
         "the source is the item stream after chunking and hashing; the chunker is abstract in edit_locality: hypotheses chunker_partition (lossless, non-empty chunks) and resync_after_common_cut (cut points depend only on the bytes since the previous cut) are universally quantified and shown satisfiable by a delimiter chunker; that the Rabin chunker meets them is C06's subject and is only OBSERVED here (oracle c)",
